@@ -154,6 +154,10 @@ func CompileWith(s *Scenario, ignoreNotSupported bool) *Compiled {
 			// goyang still processes a loaded submodule's augments
 		}
 		for _, a := range m.Augments {
+			if a.Relative {
+				c.conflict("augment %s: relative path at the top level of a module", stepsString(a.Target))
+				continue
+			}
 			todo = append(todo, pending{m, a})
 		}
 	}
